@@ -437,6 +437,16 @@ fn c18(ctx: &mut Ctx, w: &World, st: &St, t: &PTx, _params: &Params, fin: &Finis
             }
             if nb > 0 {
                 ctx.hit("byron+key");
+                let byron_inputs = st.m.inputs.iter().filter(|(i, _)| matches!(w.utxos[*i].0.owner, Owner::Byron(_))).count();
+                if byron_inputs > nb {
+                    ctx.hit("byron:two-inputs-one-address");
+                }
+                if nb >= 2 {
+                    ctx.hit("byron:two-addresses");
+                }
+                if byron_inputs > nb && nb >= 2 {
+                    ctx.hit("byron:repeated-address-among-others");
+                }
             }
             if d < 0 {
                 ctx.violation("C18/full_size-below-signed-size".to_string(), format!("full_size {} < signed {} ({} key + {} bootstrap witnesses needed) ; {}", fs, signed.len(), nk, nb, what()));
